@@ -53,6 +53,7 @@ Sixth round: C15.2 the base-n routines work in integers only (no true division, 
 Seventh round: C15.1 every port group of the rule-file regexes accepts all of 1..65535 (decided by matching the folded sub-expression against every value); C15.5 a list-typed admin field is written with one value per element, none dropped or merged.
 Eighth round: C15.5 the reader selects option groups by their prefix alone (the writer numbers them in hexadecimal); C15.1 a template chosen by a conditional expression and wildcard values prepared in locals are read through.
 Ninth round: C15.1 the writer recognises the wildcard address by value (every comparison with firewall.ANY_IP is == / !=, as the rule classes compare; F20); C15.3 a slot the reader can return as None by the shape of the data is tested against None by the writer (F21: ScheduledTraceEvent wrote why=None as the text 'None'). Both repaired in /repo. Also C15.2 no codec routine stores into a module-level name or container; C15.5 the loop that encodes an object list ranges over the list given (sorted at most), not over a mapping built from it.
+Tenth round: C15.5 the attribute list of the update read names every key of the new entry, and a list attribute given as an empty list reaches the update diff (F26, repaired in /repo); C15.1 a field is written as the wildcard on a test of that field only.
 Does NOT decide round-trip equality and injectivity over the value domains
 (type coercions, port 0 vs wildcard, None vs empty list).
 """
